@@ -52,7 +52,8 @@ def h_codebase(pi: int, v0: int, v2: int) -> bool:
     entries = {}
     for i in order:
         ms = [Measurement(f"f{i}_{j}", Location(1 + j, 1), Location(2 + j, 2), v) for j, v in enumerate(vals[i])]
-        e = SourceFileEntry(PATHS[i], f"k{i}", LANGS[i], sum(vals[i]), ms)
+        # checksums: files of different languages may be byte-identical (same checksum, different functions); files of one language are distinct
+        e = SourceFileEntry(PATHS[i], "k%d" % [j for j in range(len(PATHS)) if LANGS[j] == LANGS[i]].index(i), LANGS[i], sum(vals[i]), ms)
         entries[PATHS[i]] = e
         cb.add_file(e)
     cb.aggregate()
